@@ -1,0 +1,25 @@
+//go:build verif
+// +build verif
+
+package trie
+
+import (
+	"time"
+
+	"github.com/ElrondNetwork/elrond-go/data"
+)
+
+// VerifSetSyncerPollInterval sets the sleep between two sync iterations of a trie syncer created by
+// NewTrieSyncer (default 1s) or NewDoubleListTrieSyncer (default 100ms). It must be called before
+// StartSyncing. Used by the /verif harness of C05 for speed only; returns false for other syncer types.
+func VerifSetSyncerPollInterval(syncer data.TrieSyncer, d time.Duration) bool {
+	switch s := syncer.(type) {
+	case *trieSyncer:
+		s.waitTimeBetweenRequests = d
+		return true
+	case *doubleListTrieSyncer:
+		s.waitTimeBetweenChecks = d
+		return true
+	}
+	return false
+}
